@@ -507,7 +507,7 @@ def _run(ctx, st):
     keys = list(recs)
     ctx.rng.shuffle(keys)
     keys.sort(key=lambda k: prio[recs[k]['src']])
-    budget = ctx.n(17.0, 420.0)
+    budget = ctx.n(17.0, 240.0)
     for i, k in enumerate(keys):
         r = recs[k]
         if time.time() - t0 > budget:
@@ -578,7 +578,7 @@ def _run(ctx, st):
         if impl != model:
             ctx.disagree('schema', {'cls': cname, 'doc': r['doc'], 'src': r['src']}, model, impl)
     ctx.cov['schema_stream_s'] = round(time.time() - t0, 1)
-    run_ctor(ctx, st, recs, pyvals, ctx.n(6.0, 120.0))
+    run_ctor(ctx, st, recs, pyvals, ctx.n(6.0, 60.0))
     run_re(ctx, st, tables, allnodes)
     run_eq(ctx, st, allnodes)
     ctx.cov['schema_streams_s'] = round(time.time() - t0, 1)
